@@ -12,7 +12,7 @@ NAN = '__nan__'          # float('nan') inside a case (cases are stored as stric
 REQUIRED_THEOREMS = ['Usid.C16.reflexive', 'Usid.C16.none_ignored', 'Usid.C16.absent_key_mismatch', 'Usid.C16.sequence_scalar_mismatch',
                      'Usid.C16.scalar_sensitive', 'Usid.C16.length_sensitive', 'Usid.C16.array_sensitive_partial',
                      'Usid.C16.array_sensitive_counterexample']
-RULE = ('[also: NaN values, boolean lists, one value against a list of values and back, same-length / truncated / case-changed strings, values handed over as tuples / numpy arrays / numpy scalars, verbose=True, the File object itself] random dictionaries over int / float / bool / str / None / lists of ints, floats or strings, written with '
+RULE = ('[also: entry names with a leading or trailing blank] [also: NaN values, boolean lists, one value against a list of values and back, same-length / truncated / case-changed strings, values handed over as tuples / numpy arrays / numpy scalars, verbose=True, the File object itself] random dictionaries over int / float / bool / str / None / lists of ints, floats or strings, written with '
         'write_simple_attrs to a group or a dataset, queried with the same dictionary and with every single-entry '
         'perturbation (value +-1, value x(1 +- tol*{0.1,10}), string change, length +-1, type swap, removal from the '
         'stored object, None); non-trivial = at least one list entry or a perturbation that must flip the answer')
@@ -128,6 +128,12 @@ def generate(seed, tier):
     for i in range(n_cases):
         rng = derived_rng(seed, 'C16', i)
         d = {'k%d' % j: gen_value(rng) for j in range(rng.randint(1, 5))}
+        # names with a blank in front or behind (the attribute writer and reader strip them; the very dictionary that
+        # was written must still match)
+        rk = derived_rng(seed, 'C16k', i)
+        if rk.random() < 0.25:
+            victim = rk.choice(sorted(d))
+            d = {((k + ' ' if rk.random() < 0.5 else ' ' + k) if k == victim else k): v for k, v in d.items()}
         ps = perturbations(rng, d)
         rng.shuffle(ps)
         cases.append({'stored': d, 'queries': [{'kind': k, 'q': q, 'drop': dr, 'key': key} for k, q, dr, key in ps[:8]],
